@@ -205,7 +205,7 @@ def content_key(extra):
 
 
 def cache_load(key, name):
-    if os.environ.get("VERIF_C08_NOCACHE"):
+    if os.environ.get("VERIF_C08_CACHE") != "1":      # the content-keyed result cache is a development aid: off by default
         return None
     p = os.path.join(CACHE, key, name + ".json")
     if not os.path.exists(p):
